@@ -18,6 +18,10 @@ CHECKS = {
          "probe targets are sampled; concurrent non-transactional scans are judged only on ordering, duplicates, untouched keys and fabricated values"),
  "C12": ("exploration", "4 (C12)", "programmes with settle points (everything flushed, log files retired) followed by triggered, range and automatic compactions, reopens and compactions in which the process is killed at a chosen I/O point; the newest-wins merged view of the table files (read by harness-side sstable readers) and the engine's reads live and after reopen are compared with the reference map; every table must be sorted and duplicate-free",
          "the merged-view order (level 0 newest file first, then deeper levels, newer file first inside a level) is the harness's reading of the LSM layout; crash points inside compactions are sampled (1-40 I/O points in), not enumerated"),
+ "C07": ("exploration", "4 (C07)", "client tasks call every public entry point of an open engine while background maintenance runs, in a -race build in which baton hand-offs are hidden from ThreadSanitizer (RaceDisable, //go:norace simulator, map-free and copy-free shared simulator state): an unsynchronised pair of kevo accesses is reported although the tasks ran one after the other; panics, simulator-level deadlock and calls that do not return within 120 unstalled virtual seconds are violations too",
+         "ThreadSanitizer's bounded shadow history makes a report a may-event: race findings are not re-confirmed for determinism and their replays retry up to 8 executions; Close concurrent with calls is out of scope as in the property"),
+ "C18": ("exploration", "4 (C18)", "memtable.MemTablePool/MemTable driven directly: one writer task with arbitrary sequence numbers and table switches against reader tasks (pool lookups, iterations, seeks, repeated iteration of an immutable table) with a scheduling point at every atomic operation of the skip list; observations must be sorted, finite, complete with respect to inserts that returned before they began and free of uninserted entries; sequentially the highest sequence wins per key",
+         "ties between different entries with the same highest sequence number are not judged; pool-level lookups assume sequence numbers grow across table switches as in the engine"),
  "C08": ("exploration", "4 (C08)", "single-writer programmes with explicit and automatic log rotations, clean restarts and process crashes; after every acknowledged write the reported last sequence must exceed every earlier surviving write's, and the stored log entries (file order, wal.ReplayWALDir) must form strictly increasing sequence groups at every open and at the end",
          "crashes here stop the process between I/O points only (C02 enumerates the points); the replication protocol's view of the sequence is checked under C13/C14"),
  "C09": ("exploration", "4 (C09)", "generated entry sequences (lengths around 0, 1, the 32KB record limit, multi-fragment keys and values, batches beyond the 64KB buffer) through the real wal package on the simulated disk with short reads, rotation and reopen; ReplayWALDir and GetEntriesFrom(s) compared with a single-copy log",
